@@ -317,4 +317,8 @@ def run(ctx, report: Report) -> None:
     from .sem import descendants_table
     descendants_table(ctx, r2)
 
+    from .sem import default_button_table
+    default_button_table(ctx, r3)
+
+
 
